@@ -24,6 +24,12 @@
 #include <xalanc/XMLSupport/FormatterToText.hpp>
 #include <xalanc/XSLT/XSLTInputSource.hpp>
 #include <xalanc/XSLT/XSLTResultTarget.hpp>
+#include <xalanc/XSLT/XSLTEngineImpl.hpp>
+#include <xalanc/XSLT/XSLTProcessorEnvSupportDefault.hpp>
+#include <xalanc/XPath/XObjectFactoryDefault.hpp>
+#include <xalanc/XPath/XPathFactoryBlock.hpp>
+#include <xalanc/XalanSourceTree/XalanSourceTreeDOMSupport.hpp>
+#include <xalanc/XalanSourceTree/XalanSourceTreeParserLiaison.hpp>
 
 #include <cstdio>
 #include <iostream>
@@ -220,6 +226,96 @@ static std::string doXf(XalanTransformer& xt, const std::vector<std::string>& w)
     return "ok " + hexbytes(out.str());
 }
 
+// xs <useXercesDOM> <source hex> <stylesheet hex>: transform a given source, parsed into Xalan's own source tree or
+// into a Xerces DOM (which keeps CDATA sections as nodes of their own)
+static std::string doXs(XalanTransformer& xt, const std::vector<std::string>& w)
+{
+    if (w.size() < 4) return "bad";
+    XalanDOMString srcText, ss;
+    if (!unhex(w[2], srcText) || !unhex(w[3], ss)) return "bad";
+    xt.setIndent(-1);
+    xt.setOutputEncoding(XalanDOMString());
+    xt.setOmitMETATag(XalanTransformer::eOmitMETATagDefault);
+    xt.setEscapeURLs(XalanTransformer::eEscapeURLsDefault);
+    const std::string source = utf8of(srcText);
+    const std::string sheet = utf8of(ss);
+    std::istringstream xml(source);
+    std::istringstream xsl(sheet);
+    std::ostringstream out;
+    XSLTInputSource src(&xml);
+    XSLTInputSource sty(&xsl);
+    static const XalanDOMChar sid1[] = { 's', 'r', 'c', 0 };
+    static const XalanDOMChar sid2[] = { 'x', 's', 'l', 0 };
+    src.setSystemId(sid1);
+    sty.setSystemId(sid2);
+    const XalanParsedSource* parsed = 0;
+    if (xt.parseSource(src, parsed, w[1] == "1") != 0 || parsed == 0)
+        return "ERR:parse";
+    XSLTResultTarget tgt(out);
+    const int rc = xt.transform(*parsed, sty, tgt);
+    xt.destroyParsedSource(parsed);
+    if (rc != 0)
+    {
+        std::string e = xt.getLastError() ? xt.getLastError() : "";
+        for (char& c : e) if (c == '\n' || c == '\r') c = ' ';
+        return "ERR:transform " + e.substr(0, 200);
+    }
+    return "ok " + hexbytes(out.str());
+}
+
+// eraw <kind> <start> <length> <buffer hex>: the XSLTProcessor entry points that take (buffer, start, length), called
+// directly on a real XSLTEngineImpl whose listener is the real UTF-8 XML serializer:
+//   kind = raw   -> XSLTEngineImpl::charactersRaw(ch, start, length)
+//   kind = chars -> XSLTEngineImpl::characters(ch, start, length)
+//   kind = cdata -> XSLTEngineImpl::cdata(ch, start, length)
+// inside <a>…</a>.  Reply: the serialized document.
+static std::string doEraw(const std::vector<std::string>& w)
+{
+    if (w.size() < 5) return "bad";
+    XalanDOMString buf;
+    if (!unhex(w[4], buf)) return "bad";
+    const XalanDOMString::size_type start = XalanDOMString::size_type(std::atoi(w[2].c_str()));
+    const XalanDOMString::size_type len = XalanDOMString::size_type(std::atoi(w[3].c_str()));
+    if (start + len > buf.length() || len == 0) return "bad";
+    MemoryManager& mm = XalanMemMgrs::getDefaultXercesMemMgr();
+    std::ostringstream os;
+    std::string result;
+    try
+    {
+        XalanSourceTreeDOMSupport       domSupport;
+        XalanSourceTreeParserLiaison    liaison(domSupport, mm);
+        domSupport.setParserLiaison(&liaison);
+        XSLTProcessorEnvSupportDefault  envSupport(mm);
+        XObjectFactoryDefault           xobjectFactory(mm);
+        XPathFactoryBlock               xpathFactory(mm);
+        XSLTEngineImpl                  engine(mm, liaison, envSupport, domSupport, xobjectFactory, xpathFactory);
+        envSupport.setProcessor(&engine);
+        XalanStdOutputStream stream(os, mm);
+        XalanOutputStreamPrintWriter pw(stream);
+        XalanDOMString ver, enc, empty;
+        FormatterListener* fl = XalanXMLSerializerFactory::create(mm, pw, ver, false, 0, enc, empty, empty, empty, false, empty);
+        struct Guard { MemoryManager& m; FormatterListener* p; ~Guard() { DeleteFunctor<FormatterListener> d(m); d(p); } } guard = { mm, fl };
+        engine.setFormatterListener(fl);
+        static const XalanDOMChar nameA[] = { 'a', 0 };
+        fl->startDocument();
+        AttributeListImpl attrs(mm);
+        fl->startElement(nameA, attrs);
+        if (w[1] == "raw") engine.charactersRaw(buf.c_str(), start, len);
+        else if (w[1] == "chars") engine.characters(buf.c_str(), start, len);
+        else if (w[1] == "cdata") engine.cdata(buf.c_str(), start, len);
+        else return "bad";
+        fl->endElement(nameA);
+        fl->endDocument();
+        pw.flush();
+        stream.flush();
+        result = "ok " + hexbytes(os.str());
+    }
+    catch (const xercesc::SAXException&) { result = "ERR:sax"; }
+    catch (const XSLException&) { result = "ERR:xsl"; }
+    catch (...) { result = "ERR:other"; }
+    return result;
+}
+
 int main()
 {
     xercesc::XMLPlatformUtils::Initialize();
@@ -234,6 +330,8 @@ int main()
             if (w.empty()) r = "bad";
             else if (w[0] == "sax") r = doSax(w);
             else if (w[0] == "xf") r = doXf(xt, w);
+            else if (w[0] == "xs") r = doXs(xt, w);
+            else if (w[0] == "eraw") r = doEraw(w);
             else r = "bad";
             std::cout << r << "\n";
         }
